@@ -656,7 +656,7 @@ fn sc_c10(seed: u64, thorough: bool) -> Vec<Scenario> {
         cfg: c,
         start_ms: START,
         steps,
-        samples: if thorough { 400 } else { 60 },
+        samples: 4000, // every flow of the sweep is replayed and probed
     }]
 }
 
